@@ -1,25 +1,35 @@
-import json,glob,os
-rows=[]
-for d in sorted(glob.glob('/verif/seeded/C*')):
+"""markdown table of the seeded changes (DESIGN.md 10.7): one row per seeded/<id>/ with meta.json and confirm.json"""
+import glob
+import json
+import os
+
+V = os.path.dirname(os.path.dirname(os.path.abspath(__file__)))
+rows = []
+for d in sorted(glob.glob(os.path.join(V, "seeded", "C*"))):
     try:
-        m=json.load(open(d+'/meta.json')); c=json.load(open(d+'/confirm.json'))
+        m = json.load(open(d + "/meta.json"))
+        c = json.load(open(d + "/confirm.json"))
     except Exception:
         continue
-    sid=os.path.basename(d)
-    desc=(m.get('description') or '').replace('\n',' ').replace('|','/')
-    desc=desc[:150]+('…' if len(desc)>150 else '')
-    need=(m.get('needs_to_manifest') or '').replace('\n',' ').replace('|','/')
-    need=need[:110]+('…' if len(need)>110 else '')
-    outs=[]
-    for chk,e in c['checks'].items():
-        sig='-'
-        if e['replays']:
-            r=e['replays'][0]; sig=r.get('signature') or ('no-failing-input-found: '+','.join((r.get('proof_obligations_not_checked') or ['correspondence'])[:2]))
+    sid = os.path.basename(d)
+    desc = (m.get("description") or "").replace("\n", " ").replace("|", "/")
+    desc = desc[:150] + ("…" if len(desc) > 150 else "")
+    need = (m.get("needs_to_manifest") or "").replace("\n", " ").replace("|", "/")
+    need = need[:110] + ("…" if len(need) > 110 else "")
+    tests = {True: "same failing set as the baseline", False: "DIFFERS", None: "not run"}[c.get("tests_failed_set_equals_baseline")]
+    if c.get("kind") == "harmless-refactor":
+        n = len(c.get("checks", {}))
+        loud = [k for k, e in c.get("checks", {}).items() if e["exit"] != 0]
+        outcome = f"behaviour-preserving: all {n} quick checks silent" if not loud else "ALARMS: " + ", ".join(loud)
+        rows.append(f"| {sid} | {m.get('property')} | (refactor, {c.get('shortstat', '')}) {desc} | — | {outcome} | {tests} |")
+        continue
+    outs = []
+    for chk, e in c["checks"].items():
+        sig = "-"
+        if e["replays"]:
+            r = e["replays"][0]
+            sig = r.get("signature") or ("no-failing-input-found: " + ",".join((r.get("proof_obligations_not_checked") or ["correspondence"])[:2]))
         outs.append(f"{chk}: exit {e['exit']} `{sig}`")
-    extra=''
-    xr=os.path.join(d,'cross.json')
-    if os.path.exists(xr):
-        x=json.load(open(xr)); extra=' also: '+', '.join(k for k,v in x.items() if v==1 and k not in c['checks'])
-    rows.append(f"| {sid} | {m.get('property')} | {desc} | {need} | {'; '.join(outs)}{extra} |")
-print("| id | property | change | needs | detected by (quick check) |\n|----|----------|--------|-------|---------------------------|")
+    rows.append(f"| {sid} | {m.get('property')} | {desc} | {need} | {'; '.join(outs)} | {tests} |")
+print("| id | property | change | needs | quick check of the property (final harness, seed 0) | unedited test-suite |\n|----|----------|--------|-------|---------------------------|---|")
 print("\n".join(rows))
